@@ -41,12 +41,14 @@ const (
 	c07Borrowed  // slot carries the NEXT validator's address and that validator's valid signature
 	c07OtherType // flag commit, signature over a prevote
 	c07PSHOnly   // flag commit, signed over a block id with the same hash but another part-set header
+	c07HashOnlyID  // flag commit, signed over the incomplete block id (genuine hash, zero part-set header)
+	c07PartsOnlyID // flag commit, signed over the incomplete block id (no hash, genuine part-set header)
 	c07NKinds
 )
 
 var c07KindNames = []string{"absent", "for-block", "nil", "other-block", "wrong-key", "garbage", "nil-badsig",
 	"other-chain", "other-height", "other-round", "flag-nil/sig-block", "flag-commit/sig-nil", "borrowed-signer",
-	"prevote-sig", "other-part-header"}
+	"prevote-sig", "other-part-header", "signed-hash-only-id", "signed-parts-only-id"}
 
 type c07Case struct {
 	Powers []int64 `json:"powers"` // as given; the set sorts them
@@ -70,7 +72,7 @@ type c07Case struct {
 type c07Env struct {
 	keys     []crypto.PrivKey // pool of keys; key i is validator "i" before sorting
 	outsider crypto.PrivKey
-	blocks   [3]BlockID
+	blocks   [5]BlockID // 0 genuine, 1 other, 2 same hash other parts, 3 genuine hash without part-set header, 4 genuine part-set header without hash
 	ts       time.Time
 	sigCache map[string][]byte
 	garbage  []byte
@@ -89,6 +91,8 @@ func newC07Env() *c07Env {
 	e.blocks[0] = BlockID{Hash: h1, PartSetHeader: PartSetHeader{Total: 1, Hash: p1}}
 	e.blocks[1] = BlockID{Hash: h2, PartSetHeader: PartSetHeader{Total: 1, Hash: p2}}
 	e.blocks[2] = BlockID{Hash: h1, PartSetHeader: PartSetHeader{Total: 2, Hash: p2}}
+	e.blocks[3] = BlockID{Hash: h1}
+	e.blocks[4] = BlockID{PartSetHeader: PartSetHeader{Total: 1, Hash: p1}}
 	e.garbage = make([]byte, 64)
 	for i := range e.garbage {
 		e.garbage[i] = byte(i*7 + 3)
@@ -190,6 +194,10 @@ func (e *c07Env) build(c c07Case) (*c07Built, error) {
 			tr.typ = tmproto.PrevoteType
 		case c07PSHOnly:
 			tr.block = 2
+		case c07HashOnlyID:
+			tr.block = 3
+		case c07PartsOnlyID:
+			tr.block = 4
 		default:
 			return nil, fmt.Errorf("bad kind")
 		}
@@ -412,7 +420,7 @@ func c07EachPowers(n int, menu []int64, f func([]int64)) {
 func TestVerifC07(t *testing.T) {
 	r := vr.Start("C07", "commit", 150*time.Second, 25*time.Minute)
 	defer r.Finish()
-	r.Rule = "odometer over (power multiset from a boundary menu, per-slot signature kind from a 15-kind menu, structural edit, trust fraction, trusted set); " +
+	r.Rule = "odometer over (power multiset from a boundary menu, per-slot signature kind from a 17-kind menu, structural edit, trust fraction, trusted set); " +
 		"every tuple is distinct by construction; non-trivial = at least one slot or edit differs from a plain valid for-block signature"
 	r.Assume("ed25519 verification is a black box; ground truth about each slot is known because the harness signed it")
 	r.Assume("trust-level numerators are < 2^63 (the API takes uint64 and casts to int64)")
@@ -492,7 +500,7 @@ func TestVerifC07(t *testing.T) {
 			})
 		})
 	}
-	r.Bound = fmt.Sprintf("n<=4; all 15 slot kinds for n<=%d, 7 kinds for larger n; power menu %v", maxFull, powerMenu)
+	r.Bound = fmt.Sprintf("n<=4; all 17 slot kinds for n<=%d, 7 kinds for larger n; power menu %v", maxFull, powerMenu)
 	// 2. structural edits over small all-valid and mixed bases
 	basePowers := [][]int64{{1}, {1, 1}, {1, 1, 1}, {2, 1, 1}, {1, 1, 1, 1}, {3, 2, 1, 1}, {M / 3, M / 3, M / 3}}
 	editKinds := []int{c07Absent, c07ForBlock, c07NilValid}
@@ -519,6 +527,21 @@ func TestVerifC07(t *testing.T) {
 							}
 						}
 					}
+				}
+			}
+		})
+	}
+	// 2b. incomplete block ids (a hash without a part-set header, a part-set header without a hash) as the commit's and the caller's
+	// block id, over slots signed for the block, for nil (flagged nil or flagged for-the-block) or for those incomplete ids
+	incKinds := []int{c07Absent, c07ForBlock, c07NilValid, c07FlagCommitSigNil, c07HashOnlyID, c07PartsOnlyID}
+	for _, pw := range [][]int64{{1}, {1, 1}, {1, 1, 1}, {2, 1, 1}} {
+		c07EachKinds(len(pw), incKinds, func(ks []int) {
+			for _, cb := range []int{0, 3, 4} {
+				for _, clb := range []int{0, 3, 4} {
+					if !ok || (cb == 0 && clb == 0) {
+						continue
+					}
+					ok = try(c07Case{Powers: pw, Kinds: ks, CommitBlock: cb, CallerBlock: clb})
 				}
 			}
 		})
